@@ -101,7 +101,100 @@ class Impl:
             return self.spec(s[1]).child(int(s[2]))
         if op == 'onelevel':
             return self.spec(s[1]).one_level()
+        if op == 'compose':
+            return self.spec(s[1]).compose(self.spec(s[2]))
+        if op == 'bcast':
+            return self.spec(s[1]).broadcast_to_common_suffix(self.spec(s[2]))
+        if op == 'pickle':
+            return pickle.loads(pickle.dumps(self.spec(s[1])))
+        if op == 'leafspec':
+            return optree.treespec_leaf(none_is_leaf=(s[1] == '1'))
+        if op == 'nonespec':
+            return optree.treespec_none(none_is_leaf=(s[1] == '1'))
+        if op == 'transform':
+            sp = self.spec(s[1])
+            arg = self.spec(s[4]) if len(s) > 4 else None
+            return sp.transform(self.fnode(int(s[2])), self.fleaf(int(s[3]), arg))
+        if op == 'fromcoll':
+            kw, ordered = self.cfg(s[1])
+            coll = self.coll(s[2])
+            with self.ordered(ordered):
+                return optree.treespec_from_collection(coll, none_is_leaf=kw['none_is_leaf'],
+                                                       namespace=kw['namespace'])
         raise BadOp(f'spec expression {op}')
+
+    def fnode(self, i):
+        if i == 0:
+            return None
+        if i == 1:
+            return lambda sp: sp
+        if i == 2:
+            return lambda sp: optree.treespec_tuple(
+                [optree.treespec_leaf(none_is_leaf=sp.none_is_leaf)] * sp.num_children,
+                none_is_leaf=sp.none_is_leaf)
+        if i == 3:
+            return lambda sp: 5
+        if i == 4:
+            return lambda sp: optree.treespec_list(
+                [optree.treespec_leaf(none_is_leaf=sp.none_is_leaf)] * (sp.num_children + 1),
+                none_is_leaf=sp.none_is_leaf)
+        if i == 5:
+            def flip(sp):
+                nodes, nil, ns = sp.__getstate__()
+                out = optree.treespec_leaf()
+                out.__setstate__((nodes, not nil, ns))
+                return out
+            return flip
+        raise BadOp('fnode')
+
+    def fleaf(self, i, arg):
+        if i == 0:
+            return None
+        if i == 1:
+            return lambda sp: sp
+        if i == 2:
+            if arg is None:
+                raise BadOp('fleaf arg')
+            return lambda sp: arg
+        if i == 3:
+            return lambda sp: optree.treespec_none(none_is_leaf=sp.none_is_leaf)
+        if i == 4:
+            return lambda sp: 'not a treespec'
+        raise BadOp('fleaf')
+
+    def coll(self, s):
+        from universe import FACTORIES, NT_CLASSES as NT, SS_CLASSES as SS, Lf
+        u = self.u
+        if isinstance(s, Atom):
+            if s == 'cN':
+                return None
+            raise BadOp('coll')
+        tag = s[0]
+        if tag == 'cX':
+            return Lf(-1)
+        if tag == 'cBAD':
+            return (optree.treespec_leaf(), 5)
+        if tag == 'cT':
+            return tuple([self.spec(x) for x in s[1:]])
+        if tag == 'cl':
+            return [self.spec(x) for x in s[1:]]
+        if tag == 'cD':
+            return {u.key(k): self.spec(v) for k, v in s[1:]}
+        if tag == 'cO':
+            return OrderedDict([(u.key(k), self.spec(v)) for k, v in s[1:]])
+        if tag == 'cDD':
+            f = u.optnat(s[1])
+            return defaultdict(None if f is None else FACTORIES[f],
+                               [(u.key(k), self.spec(v)) for k, v in s[2:]])
+        if tag == 'cQ':
+            return deque([self.spec(x) for x in s[2:]], maxlen=u.optnat(s[1]))
+        if tag == 'cNT':
+            return NT[int(s[1])](*[self.spec(x) for x in s[2:]])
+        if tag == 'cSS':
+            return SS[int(s[1])](tuple([self.spec(x) for x in s[2:]]))
+        if tag == 'cU':
+            return USER_CLASSES[int(s[1])](u.optkey(s[2]), [self.spec(x) for x in s[4:]], str(s[3]))
+        raise BadOp('coll')
 
     # ------------------------------------------------------------------ requests
     def eval(self, s):
@@ -162,6 +255,20 @@ class Impl:
             kw, ordered = self.cfg(s[1])
             with self.ordered(ordered):
                 return [bool(optree.all_leaves([u.obj(x) for x in s[2]], **kw))]
+        if op == 'repr':
+            return [repr(self.spec(s[1]))]
+        if op == 'eq':
+            a, b = self.spec(s[1]), self.spec(s[2])
+            return [bool(a == b), bool(b == a)]
+        if op == 'hash_eq':
+            a, b = self.spec(s[1]), self.spec(s[2])
+            return [hash(a) == hash(b)]
+        if op == 'is_prefix':
+            a, b = self.spec(s[1]), self.spec(s[2])
+            return [bool(a.is_prefix(b, strict=(s[3] == '1')))]
+        if op == 'flatten_up_to':
+            sp = self.spec(s[1])
+            return [u.enc_obj(x) for x in sp.flatten_up_to(u.obj(s[2]))]
         if op == 'sort':
             keys = [u.key(k) for k in s[1:]]
             return self.sort_observation(keys)
